@@ -27,7 +27,7 @@ Definition fcan (rec : Z -> Z -> Z * Z) (elts : list (list Z)) : list Z * list Z
 (* what a finished object satisfies, and what makes prepare() a no-op on it *)
 Record prepared (c : cfg) (p : raw) : Prop := {
   P_verts : map prep_vertex (vertices p) = vertices p;
-  P_edges : filter (evalid (zlen (vertices p))) (map kedge (edges p)) = edges p;
+  P_edges : norm_edges (zlen (vertices p)) (edges p) = edges p;
   P_faces : fst c = true -> forall C f, In C (cells p) -> In f (cfc_cell_faces C) ->
             In (keyify f) (map keyify (faces p));
   P_sides : snd c = true -> forall f s, In f (faces p) -> In s (face_sides f) ->
@@ -59,19 +59,26 @@ Proof.
   intros H. apply filter_In in H as [H Hv]. apply in_map_iff in H as [e0 [<- _]]. split; [apply kedge_idem | assumption].
 Qed.
 
-Lemma normal_edges_fix N X : let L := filter (evalid N) (map kedge X) in filter (evalid N) (map kedge L) = L.
+Lemma norm_edges_normal N X e : In e (norm_edges N X) -> kedge e = e /\ evalid N e = true.
+Proof. intros H. apply norm_edges_In in H. now apply normal_edges in H. Qed.
+
+Lemma normal_edges_fix N X : norm_edges N (norm_edges N X) = norm_edges N X.
 Proof.
-  intros L. assert (H : forall e, In e L -> kedge e = e /\ evalid N e = true) by (intros e; apply normal_edges).
-  rewrite (map_id_in kedge L) by (intros e He; now apply H). apply filter_true_in. intros e He; now apply H.
+  set (L := norm_edges N X).
+  assert (H : forall e, In e L -> kedge e = e /\ evalid N e = true) by (intros e; apply norm_edges_normal).
+  unfold norm_edges at 1. rewrite (map_id_in kedge L) by (intros e He; now apply H).
+  rewrite (filter_true_in (evalid N) L) by (intros e He; now apply H).
+  apply fresh_all_id; [apply norm_edges_NoDup | intros x _ []].
 Qed.
 
-Lemma P_edges_facts N E : filter (evalid N) (map kedge E) = E ->
-  map kedge E = E /\ existsb (fun e => negb (evalid N e)) E = false.
+Lemma P_edges_facts N E : norm_edges N E = E ->
+  map kedge E = E /\ edges_dropped N E = false.
 Proof.
   intros H. assert (G : forall e, In e E -> kedge e = e /\ evalid N e = true).
-  { intros e He. rewrite <- H in He. now apply normal_edges in He. }
+  { intros e He. rewrite <- H in He. now apply norm_edges_normal in He. }
   split; [apply map_id_in; intros e He; now apply G|].
-  apply not_true_iff_false. rewrite existsb_exists. intros [e [He Hn]]. apply G in He as [_ Hv]. now rewrite Hv in Hn.
+  apply edges_dropped_false. rewrite <- (map_length kedge (sel_from N [] E)), sel_from_spec.
+  fold (norm_edges N E). now rewrite H.
 Qed.
 
 Lemma nth_enum_fst {A} s (l : list A) j : (j < length l)%nat -> nth_error (map fst (enum_from s l)) j = Some (s + Z.of_nat j).
@@ -236,7 +243,7 @@ Lemma attrs_equiv_refl n l : attrs_equiv n l l.
 Proof. induction l; constructor; [repeat split; auto | assumption]. Qed.
 
 Lemma pe_attr_default r a : attr_default (pe_attr r a) = attr_default a.
-Proof. unfold pe_attr. destruct (existsb _ (edges r)); reflexivity. Qed.
+Proof. unfold pe_attr. destruct (edges_dropped _ (edges r)); reflexivity. Qed.
 
 Theorem prepared_stable c p : prepared c p -> exists p2, prepare c p = Ok p2 /\ raw_equiv p2 p.
 Proof.
@@ -293,7 +300,8 @@ Proof.
   assert (Hget : forall a j, 0 <= j < zlen (edges p) -> attr_get (pe_attr (stage2 c p) a) j = attr_get a j).
   { intros a j Hj. replace j with (Z.of_nat (Z.to_nat j)) at 1 by lia.
     rewrite (pe_attr_get c p a (Z.to_nat j) j); [reflexivity|].
-    unfold kept_idx. fold N. rewrite (kept_from_all _ _ _ Hvalid), nth_enum_fst by (unfold zlen in Hj; lia). f_equal. lia. }
+    unfold kept_idx. fold N. apply edges_dropped_false in Hvalid.
+    rewrite (proj2 (sel_from_full _ _ _ Hvalid)), nth_enum_fst by (unfold zlen in Hj; lia). f_equal. lia. }
   assert (Hdef : forall a, attr_default (pe_attr (stage2 c p) a) = attr_default a).
   { intros a. apply pe_attr_default. }
   destruct (completes c p) eqn:Cm.
